@@ -76,11 +76,34 @@ def r16_2(run):
                "guard is an ancestor, not a descendant, of the as_strided node" if ok else "validation after the strided view was built")
     # the stride arithmetic reads arr only after the contiguity normalisation
     cont = [n for n, s in cfg.stmt.items() if isinstance(s, ast.Assign) and "ascontiguousarray" in norm(s)]
-    reads = [n for n, s in cfg.stmt.items() if isinstance(s, ast.Assign) and ".strides" in norm(s.value)]
-    ok = bool(cont) and all(any(r in nx.descendants(cfg.g, c) for c in cont) and not any(c in nx.descendants(cfg.g, r) for c in cont) for r in reads)
-    run.ob("R16.2", loc(fi, fi.node), fi.short, "strides are read after the C-contiguity normalisation", ok and bool(reads),
-           "np.ascontiguousarray(arr) (guarded by the flags test) precedes every read of arr.strides" if ok else
-           "byte strides computed for a non-contiguous layout: the view can address memory outside arr")
+    ok = bool(cont) and all(ns in nx.descendants(cfg.g, c) for c in cont)
+    flagtest = [n for n, s in cfg.stmt.items() if cfg.label[n] == "If" and "C_CONTIGUOUS" in norm(s) and norm(s).startswith("not ")]
+    ok = ok and (not flagtest or all(cfg.edge_dominates(t, "true", c) for t in flagtest for c in cont))
+    run.ob("R16.2", loc(fi, fi.node), fi.short, "the C-contiguity normalisation precedes the striding", ok,
+           "np.ascontiguousarray(arr) (guarded by the flags test) is an ancestor of the as_strided node" if ok else
+           "strides computed for C order are applied to an array of another layout: the view can address memory outside arr")
+    # D11: the byte unit of the stride arithmetic.  NumPy leaves the stride of a length-1 axis arbitrary (0 after x[..., None]) even for arrays
+    # it flags C-contiguous, so nothing may be derived from arr.strides: shape x itemsize only
+    sreads = [x for x in own_nodes(fi.node) if isinstance(x, ast.Attribute) and x.attr == "strides" and isinstance(x.ctx, ast.Load)]
+    isz = [x for x in own_nodes(fi.node) if isinstance(x, ast.Attribute) and x.attr in ("itemsize",) and isinstance(x.ctx, ast.Load)]
+    run.ob("R16.4", loc(fi, sreads[0] if sreads else (isz[0] if isz else fi.node)), fi.short, "window strides are derived from shape and itemsize, never from arr.strides",
+           not sreads and bool(isz), f"{len(isz)} read(s) of .itemsize, no read of .strides" if (not sreads and isz) else
+           f"`{norm(getattr(sreads[0], '_parent', sreads[0]))[:50]}` reads the array's own strides: for a C-contiguous array whose last axis has length 1 "
+           f"(x[..., None]) that stride is 0, every window stride becomes 0 and all windows read arr[0]" if sreads else "no element size found")
+    # positivity of every integer option, before it is used as a divisor / multiplier of strides
+    for nm_ in ("window_shape", "step", "dilation"):
+        pos = []
+        for g_ in guards:
+            for ge in ast.walk(cfg.stmt[g_]):
+                if isinstance(ge, ast.GeneratorExp) and norm(ge.generators[0].iter) == nm_ and isinstance(ge.generators[0].target, ast.Name):
+                    v_ = ge.generators[0].target.id
+                    for cmp_ in ast.walk(ge.elt):
+                        if isinstance(cmp_, ast.Compare) and len(cmp_.ops) == 1 and norm(cmp_) in (f"{v_} > 0", f"{v_} >= 1", f"0 < {v_}", f"1 <= {v_}"):
+                            pos.append(g_)
+        ok = any(g_ not in after and ns in nx.descendants(cfg.g, g_) for g_ in pos)
+        run.ob("R16.5", loc(fi, cfg.stmt[pos[0]] if pos else fi.node), fi.short, f"every entry of `{nm_}` is tested strictly positive before the striding", ok,
+               f"raising guard `{norm(cfg.stmt[pos[0]])[:60]}`" if ok else
+               f"no raising guard establishes {nm_}[i] > 0: a zero entry is accepted (division by zero yields a bogus placement count / all windows coincide)")
     # specific fit rules named by the property
     fit = [g for g in guards if "window_shape" in norm(cfg.stmt[g]) and "arr.shape" in norm(cfg.stmt[g]) and ">" in norm(cfg.stmt[g])
            and "dilation" not in norm(cfg.stmt[g])]
@@ -209,12 +232,115 @@ def _extent_from_outshape(expr: ast.AST, env, S):
     return ext
 
 
+_BAD_IDENTITY = {"maximum": ("zeros", "zeros_like", "ones", "ones_like", "empty", "empty_like"),
+                 "minimum": ("zeros", "zeros_like", "ones", "ones_like", "empty", "empty_like"),
+                 "fmax": ("zeros", "zeros_like", "ones", "ones_like", "empty", "empty_like"),
+                 "fmin": ("zeros", "zeros_like", "ones", "ones_like", "empty", "empty_like")}
+
+
+def _running_extremum_sites(fn_node: ast.AST):
+    """(loop, call, accumulator name, initialiser call) for  `np.maximum(acc, x, out=acc)` / `acc = np.maximum(acc, x)` inside a loop
+    whose accumulator is initialised before the loop by a constant-filled allocation"""
+    out = []
+    for loop in [n for n in ast.walk(fn_node) if isinstance(n, (ast.For, ast.While))]:
+        for c in ast.walk(loop):
+            if not (isinstance(c, ast.Call) and (dotted(c.func) or "").split(".")[-1] in _BAD_IDENTITY and len(c.args) >= 2):
+                continue
+            kind = (dotted(c.func) or "").split(".")[-1]
+            o = kw(c, "out")
+            acc = None
+            if o is not None and isinstance(o, ast.Name) and o.id in (norm(c.args[0]), norm(c.args[1])):
+                acc = o.id
+            par = getattr(c, "_parent", None)
+            if acc is None and isinstance(par, ast.Assign) and len(par.targets) == 1 and isinstance(par.targets[0], ast.Name) \
+                    and par.targets[0].id in (norm(c.args[0]), norm(c.args[1])):
+                acc = par.targets[0].id
+            if acc is None:
+                continue
+            for st in ast.walk(fn_node):
+                if isinstance(st, ast.Assign) and len(st.targets) == 1 and isinstance(st.targets[0], ast.Name) and st.targets[0].id == acc \
+                        and st.lineno < loop.lineno and isinstance(st.value, ast.Call):
+                    init = (dotted(st.value.func) or "").split(".")[-1]
+                    out.append((loop, c, acc, st, kind, init))
+    return out
+
+
+def r16_6(run):
+    """a running max/min must start from the operation's identity (or the first slice), not from a constant-filled buffer"""
+    import textwrap
+    probe = ast.parse(textwrap.dedent("""
+        def f(x, pool):
+            out = np.zeros(x.shape)
+            for off in pool:
+                np.maximum(out, x[off], out=out)
+            return out
+    """))
+    for n_ in ast.walk(probe):
+        for ch in ast.iter_child_nodes(n_):
+            ch._parent = n_
+    if not any(init in _BAD_IDENTITY[kind] for *_r, kind, init in _running_extremum_sites(probe)):
+        raise AnalysisError("R16.6 matcher no longer recognises its own positive example")
+    n = 0
+    for fi in run.project.all_functions():
+        if not fi.qualname.startswith("mygrad.nnet."):
+            continue
+        n += 1
+        for loop, c, acc, st, kind, init in _running_extremum_sites(fi.node):
+            bad = init in _BAD_IDENTITY[kind]
+            run.ob("R16.6", loc(fi, st), fi.short, f"running np.{kind} over `{acc}` starts from the identity of {kind}", not bad,
+                   f"initialised by {init}" if not bad else
+                   f"`{norm(st)[:50]}` seeds a running {kind} with a constant: windows whose true {kind} lies on the other side of that constant "
+                   f"(all-negative data for a zero-seeded max) return the constant")
+    run.count("nnet functions scanned for running extrema", n)
+    run.ob("R16.6", "mygrad/nnet", "mygrad.nnet", "no running extremum is seeded with a constant buffer", True,
+           f"{n} functions scanned; matcher validated on its built-in positive example", nontrivial=False)
+
+
+def r16_7(run):
+    """a forward pass never narrows one operand to another operand's dtype"""
+    n = 0
+    for c in run.project.operation_classes():
+        m = c.methods.get("__call__")
+        if m is None or not m.qualname.startswith("mygrad.nnet."):
+            continue
+        n += 1
+        params = set(m.params()) - {"self"}
+        alias = {}
+        for st in own_nodes(m.node):
+            if isinstance(st, ast.Assign) and len(st.targets) == 1 and isinstance(st.targets[0], ast.Name) and isinstance(st.value, ast.Attribute) \
+                    and st.value.attr == "data" and isinstance(st.value.value, ast.Name) and st.value.value.id in params:
+                alias[st.targets[0].id] = st.value.value.id
+        def root(e):
+            while isinstance(e, (ast.Attribute, ast.Subscript, ast.Call)):
+                e = e.func if isinstance(e, ast.Call) else e.value
+            return e.id if isinstance(e, ast.Name) else None
+        for k in own_nodes(m.node):
+            if isinstance(k, ast.Call) and isinstance(k.func, ast.Attribute) and k.func.attr == "astype" and (k.args or kw(k, "dtype") is not None):
+                t = k.args[0] if k.args else kw(k, "dtype")
+                if isinstance(t, ast.Attribute) and t.attr == "dtype":
+                    tr, rr = root(t.value), root(k.func.value)
+                    tr, rr = alias.get(tr, tr), alias.get(rr, rr)
+                    bad = tr in params and rr in params and tr != rr
+                    run.ob("R16.7", loc(m, k), m.short, f"`{norm(k)[:50]}` does not narrow an operand to another operand's dtype", not bad,
+                           "cast target is not a sibling operand's dtype" if not bad else
+                           f"operand `{rr}` is cast to the dtype of operand `{tr}`: integer data truncate real-valued filters (the documented formula "
+                           f"uses NumPy's promoted type)")
+    run.count("nnet forward passes scanned for operand casts", n)
+    run.ob("R16.7", "mygrad/nnet", "mygrad.nnet", "no forward pass casts an operand to a sibling operand's dtype", True, f"{n} forward passes scanned", nontrivial=False)
+
+
 def check(run):
     run.rule("R16.1", "every as_strided view is read-only (or strides a buffer the function allocated itself)", floor=2)
     run.rule("R16.2", "sliding_window_view validates before it strides and reads strides after the contiguity normalisation; "
              "ConvND/MaxPoolND size checks dominate window creation", floor=14)
     run.rule("R16.3", "the dilated-extent polynomial a layer accepts equals the one sliding_window_view enforces (term domain); the guard is "
              "at least as strict as the placement formula", floor=4)
+    run.rule("R16.4", "sliding_window_view derives its strides from shape x itemsize only", floor=1)
+    run.rule("R16.5", "window_shape, step and dilation entries are validated strictly positive before use", floor=3)
+    run.rule("R16.6", "running max/min accumulators in nnet code start from the identity, not a constant buffer", floor=1)
+    run.rule("R16.7", "nnet forward passes do not narrow operands to a sibling operand's dtype", floor=1)
+    r16_6(run)
+    r16_7(run)
     r16_1(run)
     r16_2(run)
     r16_3(run)
